@@ -483,6 +483,10 @@ func writeComputedFieldExpression(w *formatting.IndentedWriter, expression dsl.E
 					// ^ binds more tightly than a unary minus on its left in MATLAB
 					requiresParentheses = true
 				}
+				if t.Operator == dsl.BinaryOpPow && isNegativeLiteral(t.Left) {
+					// the same holds for the sign of a negative literal
+					requiresParentheses = true
+				}
 
 				if requiresParentheses {
 					w.WriteString("(")
@@ -1060,4 +1064,14 @@ func typeDefinitionDefault(t dsl.TypeDefinition, contextNamespace string, st dsl
 	}
 
 	return "", defaultValueKindNone
+}
+
+func isNegativeLiteral(expression dsl.Expression) bool {
+	switch e := expression.(type) {
+	case *dsl.IntegerLiteralExpression:
+		return e.Value.Sign() < 0
+	case *dsl.FloatingPointLiteralExpression:
+		return strings.HasPrefix(e.Value, "-")
+	}
+	return false
 }
